@@ -336,6 +336,22 @@ class LinOracles(Oracles):
         self.observe("cmp", (name, v))
         return v
 
+    def decide_switch(self, it, v, term, body):
+        """a `match` on an affine integer: decide each listed value by the same interval oracles"""
+        if v.aff is None:
+            return None
+        for tv, tb in term["targets"]:
+            eq = self.unknown_compare(it, "Eq", v, Int(v.w, v.signed, val=tv))
+            if eq is None:
+                return None
+            if eq:
+                return tv
+        used = {tv for tv, _ in term["targets"]}
+        x = 0
+        while x in used:
+            x += 1
+        return x
+
     def unknown_cmp(self, it, a, b):
         lt = self.unknown_compare(it, "Lt", a, b)
         if lt is None:
